@@ -195,9 +195,22 @@ def _rand_chain(rng):
     return rng.randrange(0, C_MAX + 1)
 
 
+CARRY = sorted({c for k in range(6, 257) for c in ((2**k - 36) // 2, (2**k - 36) // 2 + 1, (2**k - 36) // 2 - 1, 2**(k - 1) - 18, 2**(k - 1) - 17)
+                if 0 <= c <= C_MAX})
+
+
 def gen(shard, rng, tier):
     name = shard["name"]
     if name.startswith("lib-"):
+        idx = int(name.split("-")[1])
+        # every chain id at which 35 + 2c (+ parity) crosses a power of two: carry chains in multi-word arithmetic; two keys each
+        # so that both parities occur
+        for c in CARRY[idx::6]:
+            tx = _tx_with_chain(rng, c, reftx.LEGACY)
+            toks = txgen.tokens_for(rng, tx, spell=("dec", "hex"))
+            for x in (rng.randrange(1, secp.N), rng.randrange(1, secp.N), rng.randrange(1, secp.N)):
+                yield lib_case("lib", {"op": "tx.process", "json": txgen.render(rng, toks), "secret": "%064x" % x},
+                               {"cls": "carry-chain-id", "tx": txgen.tx_to_meta(tx)}, rng.choice(["release", "dev"]))
         for _ in range(shard["count"]):
             c = _rand_chain(rng)
             tx = _tx_with_chain(rng, c, rng.choice([reftx.LEGACY, reftx.LEGACY, reftx.T2930, reftx.T1559]))
